@@ -10,6 +10,14 @@
 static int64_t t0, tstep;
 static int tcalls;
 static int armed;
+static int tfail_at = -1;
+
+void
+shim_time_fail_at(int k)
+{
+
+	tfail_at = k;
+}
 
 void
 shim_time_set(int64_t t, int64_t step)
@@ -44,6 +52,13 @@ __wrap_time(time_t * tloc)
 
 	if (!armed)
 		return (__real_time(tloc));
+	if (tcalls == tfail_at) {
+		/* the clock cannot be read */
+		tcalls++;
+		if (tloc != NULL)
+			*tloc = (time_t)(-1);
+		return ((time_t)(-1));
+	}
 	v = (time_t)shim_time_value(tcalls++);
 	if (tloc != NULL)
 		*tloc = v;
